@@ -44,8 +44,11 @@ type FuncContract struct {
 	Requires  []Clause
 	Ensures   []Clause
 	Goals     []Clause
+	Trusted   []Clause // ensures assumed at call sites but NOT proved of the body (listed as assumptions)
 	Modifies  []string
 	HasMod    bool
+	TrustedMod []string // frame assumed by callers instead of Modifies (listed as an assumption)
+	HasTrustedMod bool
 	Uses      []Clause
 	UsesPost  []Clause
 	Loops     map[int]*LoopSpec
@@ -55,7 +58,7 @@ type FuncContract struct {
 	Ghost     []GhostSet
 	Inline    bool
 	Wrap64    bool
-	Trusted   bool
+	TrustedAll bool
 	RecDec    *Clause
 	Where     string
 	Params    []string // for family contracts: parameter names (this first)
@@ -340,6 +343,15 @@ func (cs *Contracts) loadFile(repo, file string) error {
 					}
 				}
 			}
+		case "trusted-modifies":
+			cur.HasTrustedMod = true
+			for _, it := range splitTop(rest, ',') {
+				it = strings.TrimSpace(it)
+				if it != "" && it != "nothing" {
+					cur.TrustedMod = append(cur.TrustedMod, it)
+				}
+			}
+			appendTo = nil
 		case "use":
 			cur.Uses = append(cur.Uses, Clause{Expr: rest, Where: where})
 			appendTo = nil
@@ -412,7 +424,12 @@ func (cs *Contracts) loadFile(repo, file string) error {
 		case "inline":
 			cur.Inline = true
 		case "trusted":
-			cur.Trusted = true
+			cur.TrustedAll = true
+		case "trusted-ensures":
+			cur.Trusted = append(cur.Trusted, mk(rest))
+			n := len(cur.Trusted) - 1
+			c := cur
+			appendTo = func(s string) { c.Trusted[n].Expr += " " + s }
 		case "nodefault":
 			cur.NoDefault = true
 		case "nosafety":
